@@ -381,5 +381,6 @@ func checkC18(c *Check) {
 	})
 	c18BigNumbers(c)
 	c18HandBuiltTimes(c)
+	c18OtherValues(c)
 	c18FailingWriters(c)
 }
